@@ -79,7 +79,7 @@ class TComp(fm.TimeComponent):
 
     def value(self):
         # payload identifies (component, update count)
-        return float(self.idx * 100000 + self.cnt)
+        return float(self.spec.get("uid", self.idx) * 100000 + self.cnt)
 
     def _connect(self, start_time):
         self.calls.append("C")
@@ -163,8 +163,13 @@ def build(case):
     composition = fm.Composition(comps, print_log=False)
     adapters = []
     fin_count = {}
-    for idx, spec in enumerate(comps_spec):
-        for i, inp in enumerate(spec["inputs"]):
+    link_list = [(idx, i) for idx, spec in enumerate(comps_spec) for i, _ in enumerate(spec["inputs"])]
+    if case.get("link_order") is not None:
+        link_list = [link_list[k] for k in case["link_order"]]
+    for idx, i in link_list:
+        spec = comps_spec[idx]
+        if True:
+            inp = spec["inputs"][i]
             sc, so = inp["src"]
             chain = [mk_adapter(a) for a in inp["chain"]]
             node = comps[sc].outputs[f"o{so}"]
